@@ -54,6 +54,11 @@ def make_field(rng, kind):
         return LField(np.zeros((3, 3)))
     if kind == "const":
         return LField(L0)
+    if kind == "rigid":  # rigid-body rotation: antisymmetric L, zero strain rate, L != 0
+        X = rng.normal(size=(3, 3))
+        return LField(X - X.T)
+    if kind == "ends_vanish":  # L(t) = sin(w t) L2: vanishes at t = k pi / w (make_scenario aligns the partition with the zeros)
+        return LField(np.zeros((3, 3)), L2=L0, w=1.0)
     if kind == "time":
         return LField(L0, L1=0.5 * impl.make_L("general", rng), L2=0.3 * impl.make_L("general_trace", rng), w=float(rng.uniform(1, 6)))
     if kind == "space":
@@ -65,6 +70,7 @@ def make_field(rng, kind):
 
 
 FIELD_KINDS = ["const", "time", "space", "both"]
+EDGE_FIELD_KINDS = ["zero", "rigid", "ends_vanish"]
 ACCEPTED_REGIMES = [0, 1, 4, 6, 7]
 
 
@@ -83,6 +89,11 @@ def make_scenario(rng, k, nmax=16, regimes=(4, 6), two_phase=True, fields=FIELD_
     )
     if np.linalg.det(sc["F0"]) <= 0.1:
         sc["F0"] = np.eye(3)
+    sc["field_kind"] = fields[(k // 3) % len(fields)]
+    if sc["field_kind"] == "ends_vanish":
+        # every partition point is a zero of sin(w t): the velocity gradient vanishes at both ends of every update interval
+        sc["t0"] = 0.0
+        sc["field"].w = float(np.pi * sc["n_updates"] / sc["span"])
     return sc
 
 
